@@ -96,4 +96,174 @@ Corollary reverse_impl_nth (s : list T) (i : nat) (d : T) : (i < length s)%nat -
   exists s', reverse_impl s = Ok s' /\ nth i s' d = nth (length s - S i) s d.
 Proof. intros H. exists (rev s). split; [apply reverse_impl_spec|]. apply rev_nth. exact H. Qed.
 
+
+(* ---------------------------------------------------------------- Dedup = slices.Compact *)
+Variable eqb : T -> T -> bool.
+Variable zero : T.
+Notation dfrom := (dedup_from eqb).
+Notation dspec := (dedup_spec eqb).
+
+Lemma length_zlen (a b : list T) : zlen a = zlen b -> length a = length b.
+Proof. unfold zlen. lia. Qed.
+
+(* the inner loop: s = kept ++ J ++ [q] ++ rest, where kept (k elements) is the output so far,
+   J ++ [q] are slots already read (q = the element read last, still in place), rest is unread *)
+Lemma compact_inner_spec : forall (rest : list T) (gas : nat) (kept J : list T) (q : T) (k0 k2 : Z),
+  (gas > length rest)%nat ->
+  k0 + k2 = zlen kept + zlen J + 1 ->
+  exists X,
+    compact_inner eqb gas (kept ++ J ++ [q] ++ rest) k0 (zlen kept) k2
+    = Ok ((kept ++ dfrom q rest) ++ X, zlen (kept ++ dfrom q rest))
+    /\ length ((kept ++ dfrom q rest) ++ X) = length (kept ++ J ++ [q] ++ rest).
+Proof.
+  induction rest as [|y rest IH]; intros gas kept J q k0 k2 Hg Hk.
+  - destruct gas; [simpl in Hg; lia|]. cbn [compact_inner dedup_from].
+    assert (L : zlen (kept ++ J ++ [q] ++ []) = k0 + k2).
+    { rewrite !zlen_app. change (zlen [q]) with 1. change (zlen (@nil T)) with 0. lia. }
+    rewrite L. replace (k2 <? k0 + k2 - k0) with false by (symmetry; apply Z.ltb_ge; lia).
+    exists (J ++ [q]). rewrite !app_nil_r. split; [|rewrite <- ?app_assoc; reflexivity].
+    rewrite <- ?app_assoc. reflexivity.
+  - destruct gas; [simpl in Hg; lia|]. cbn [compact_inner].
+    assert (L : zlen (kept ++ J ++ [q] ++ y :: rest) = k0 + k2 + 1 + zlen rest).
+    { rewrite !zlen_app. change (zlen [q]) with 1. rewrite zlen_cons. lia. }
+    rewrite L. pose proof (zlen_nonneg rest).
+    replace (k2 <? k0 + k2 + 1 + zlen rest - k0) with true by (symmetry; apply Z.ltb_lt; lia).
+    assert (G1 : get (kept ++ J ++ [q] ++ y :: rest) (k0 + k2) = Ok y).
+    { replace (kept ++ J ++ [q] ++ y :: rest) with ((kept ++ J ++ [q]) ++ y :: rest)
+        by (rewrite <- !app_assoc; reflexivity).
+      apply get_mid. rewrite !zlen_app. change (zlen [q]) with 1. lia. }
+    assert (G2 : get (kept ++ J ++ [q] ++ y :: rest) (k0 + k2 - 1) = Ok q).
+    { replace (kept ++ J ++ [q] ++ y :: rest) with ((kept ++ J) ++ q :: (y :: rest))
+        by (rewrite <- !app_assoc; reflexivity).
+      apply get_mid. rewrite !zlen_app. lia. }
+    rewrite G1. cbn [bind]. rewrite G2.
+    cbn [bind dedup_from].
+    destruct (eqb y q); cbn [negb].
+    + (* a duplicate of its predecessor: skipped, the slot joins the junk *)
+      destruct (IH gas kept (J ++ [q]) y k0 (k2 + 1)) as [X [E Len]].
+      * simpl in Hg; lia.
+      * rewrite zlen_app. change (zlen [q]) with 1. lia.
+      * exists X. rewrite <- !app_assoc in E. rewrite <- !app_assoc in Len. cbn [app] in E, Len.
+        cbn [app]. rewrite <- ?app_assoc. split; [exact E|exact Len].
+    + (* kept: stored at slot k = |kept|, the first junk slot *)
+      destruct (J ++ [q]) as [|j Jt] eqn:EJ; [destruct J; discriminate|].
+      assert (LJ : zlen Jt = zlen J).
+      { assert (H1 : zlen (J ++ [q]) = zlen (j :: Jt)) by (rewrite EJ; reflexivity).
+        rewrite zlen_app in H1. change (zlen [q]) with 1 in H1. rewrite zlen_cons in H1. lia. }
+      replace (kept ++ J ++ [q] ++ y :: rest) with (kept ++ j :: (Jt ++ y :: rest)).
+      2:{ replace (J ++ [q] ++ y :: rest) with ((J ++ [q]) ++ y :: rest) by (rewrite <- app_assoc; reflexivity).
+          rewrite EJ. reflexivity. }
+      rewrite (set_mid kept _ j y) by reflexivity. cbn [bind].
+      destruct (IH gas (kept ++ [y]) Jt y k0 (k2 + 1)) as [X [E Len]].
+      * simpl in Hg; lia.
+      * rewrite zlen_app. change (zlen [y]) with 1. lia.
+      * exists X.
+        replace (zlen kept + 1) with (zlen (kept ++ [y])) by (rewrite zlen_app; reflexivity).
+        replace (kept ++ y :: Jt ++ y :: rest) with ((kept ++ [y]) ++ Jt ++ [y] ++ rest)
+          by (rewrite <- !app_assoc; reflexivity).
+        replace (kept ++ y :: dfrom y rest) with ((kept ++ [y]) ++ dfrom y rest)
+          by (rewrite <- !app_assoc; reflexivity).
+        split; [exact E|].
+        rewrite Len. rewrite !app_length. cbn [length]. rewrite !app_length. cbn [length]. lia.
+Qed.
+
+Lemma clear_from_prefix (a X : list T) :
+  clear_from zero (a ++ X) (zlen a) = a ++ repeat zero (length X).
+Proof.
+  unfold clear_from, zlen. rewrite Nat2Z.id, firstn_app, Nat.sub_diag, firstn_all. cbn [firstn].
+  rewrite app_nil_r, app_length. f_equal. f_equal. lia.
+Qed.
+
+(* the outer loop at position |pre|+1: pre ++ [p] is the duplicate-free prefix scanned so far *)
+Lemma compact_outer_spec : forall (rest : list T) (gas : nat) (pre : list T) (p : T),
+  (gas > length rest)%nat ->
+  compact_outer eqb zero gas (pre ++ p :: rest) (zlen pre + 1)
+  = Ok ((pre ++ p :: dfrom p rest) ++ repeat zero (length rest - length (dfrom p rest)),
+        zlen (pre ++ p :: dfrom p rest)).
+Proof.
+  induction rest as [|y rest IH]; intros gas pre p Hg.
+  - destruct gas; [simpl in Hg; lia|]. cbn [compact_outer dedup_from].
+    rewrite zlen_app, zlen_cons. change (zlen (@nil T)) with 0.
+    replace (zlen pre + 1 <? zlen pre + (1 + 0)) with false by (symmetry; apply Z.ltb_ge; lia).
+    cbn [length Nat.sub repeat]. rewrite app_nil_r. reflexivity.
+  - destruct gas; [simpl in Hg; lia|]. cbn [compact_outer].
+    pose proof (zlen_nonneg rest).
+    replace (zlen pre + 1 <? zlen (pre ++ p :: y :: rest)) with true
+      by (symmetry; apply Z.ltb_lt; rewrite zlen_app, !zlen_cons; lia).
+    assert (G1 : get (pre ++ p :: y :: rest) (zlen pre + 1) = Ok y).
+    { replace (pre ++ p :: y :: rest) with ((pre ++ [p]) ++ y :: rest) by (rewrite <- app_assoc; reflexivity).
+      apply get_mid. rewrite zlen_app. reflexivity. }
+    assert (G2 : get (pre ++ p :: y :: rest) (zlen pre + 1 - 1) = Ok p) by (apply get_mid; lia).
+    rewrite G1. cbn [bind]. rewrite G2.
+    cbn [bind dedup_from].
+    destruct (eqb y p).
+    + (* the first duplicate: the inner loop takes over with kept = pre ++ [p], no junk, q = y *)
+      destruct (compact_inner_spec rest (S (length (pre ++ p :: y :: rest))) (pre ++ [p]) [] y (zlen pre + 1) 1) as [X [E Len]].
+      * rewrite app_length. cbn [length]. lia.
+      * rewrite zlen_app. change (zlen [p]) with 1. change (zlen (@nil T)) with 0. lia.
+      * replace (zlen (pre ++ [p])) with (zlen pre + 1) in E by (rewrite zlen_app; reflexivity).
+        replace ((pre ++ [p]) ++ [] ++ [y] ++ rest) with (pre ++ p :: y :: rest) in E
+          by (rewrite <- !app_assoc; reflexivity).
+        rewrite E. cbn [bind fst snd].
+        rewrite clear_from_prefix.
+        replace ((pre ++ [p]) ++ dfrom y rest) with (pre ++ p :: dfrom y rest) by (rewrite <- app_assoc; reflexivity).
+        f_equal. f_equal. f_equal. f_equal.
+        replace ((pre ++ [p]) ++ [] ++ [y] ++ rest) with (pre ++ p :: y :: rest) in Len
+          by (rewrite <- !app_assoc; reflexivity).
+        rewrite ?app_length in Len. cbn [length] in Len. rewrite ?app_length in Len. cbn [length] in Len.
+        rewrite ?app_length in Len. cbn [length] in Len. cbn [length]. lia.
+    + replace (pre ++ p :: y :: rest) with ((pre ++ [p]) ++ y :: rest) by (rewrite <- app_assoc; reflexivity).
+      replace (zlen pre + 1 + 1) with (zlen (pre ++ [p]) + 1) by (rewrite zlen_app; reflexivity).
+      rewrite IH by (simpl in Hg; lia).
+      replace ((pre ++ [p]) ++ y :: dfrom y rest) with (pre ++ p :: y :: dfrom y rest) by (rewrite <- app_assoc; reflexivity).
+      reflexivity.
+Qed.
+
+Lemma dedup_from_length q l : (length (dfrom q l) <= length l)%nat.
+Proof. revert q. induction l as [|y l IH]; intros q; cbn [dedup_from length]; [lia|]. destruct (eqb y q); cbn [length]; specialize (IH y); lia. Qed.
+
+(* Dedup: the elements that differ from their predecessor, in order (the first of every run),
+   as the first k slots; the other slots zeroed; the length of the array unchanged; no panic *)
+Theorem compact_impl_spec (s : list T) :
+  compact_impl eqb zero s
+  = Ok (dspec s ++ repeat zero (length s - length (dspec s)), zlen (dspec s)).
+Proof.
+  unfold compact_impl. destruct s as [|x r].
+  - reflexivity.
+  - destruct r as [|y r].
+    + reflexivity.
+    + replace (zlen (x :: y :: r) <? 2) with false
+        by (symmetry; apply Z.ltb_ge; rewrite !zlen_cons; pose proof (zlen_nonneg r); lia).
+      pose proof (compact_outer_spec (y :: r) (S (length (x :: y :: r))) [] x) as H.
+      cbn [app] in H. change (zlen (@nil T)) with 0 in H. rewrite Z.add_0_l in H.
+      rewrite H by (cbn [length]; lia).
+      cbn [dedup_spec length]. reflexivity.
+Qed.
+
+Corollary compact_impl_length s s' k :
+  compact_impl eqb zero s = Ok (s', k) -> length s' = length s /\ 0 <= k <= zlen s.
+Proof.
+  rewrite compact_impl_spec. intros [= <- <-].
+  assert (L : (length (dspec s) <= length s)%nat).
+  { destruct s as [|x r]; cbn [dedup_spec length]; [lia|]. pose proof (dedup_from_length x r). lia. }
+  rewrite app_length, repeat_length. unfold zlen. lia.
+Qed.
+
+(* the result slice s[:k] holds exactly the reference *)
+Corollary compact_impl_prefix s s' k :
+  compact_impl eqb zero s = Ok (s', k) -> firstn (Z.to_nat k) s' = dspec s.
+Proof.
+  rewrite compact_impl_spec. intros [= <- <-]. unfold zlen. rewrite Nat2Z.id, firstn_app, Nat.sub_diag, firstn_all.
+  cbn [firstn]. apply app_nil_r.
+Qed.
+
+(* a list in which nothing equals its predecessor is left as it is *)
+Lemma dedup_from_id q l :
+  (forall pre a b suf, q :: l = pre ++ a :: b :: suf -> eqb b a = false) -> dfrom q l = l.
+Proof.
+  revert q. induction l as [|y l IH]; intros q H; cbn [dedup_from]; [reflexivity|].
+  rewrite (H [] q y l eq_refl). f_equal. apply IH.
+  intros pre a b suf E. apply (H (q :: pre) a b suf). cbn [app]. rewrite E. reflexivity.
+Qed.
+
 End More.
